@@ -670,6 +670,25 @@ def conn_chunked(rng, T):
     return {"kind": "conn", "device": dev, "log_size": 0, "threads": [t0], "pre_register": [1], "final_wait": 0}
 
 
+def conn_second_session(rng, ending="drop"):
+    """connect() again on the same YncaConnection object after a planned close() (or after a lost link): the second session is a session like
+    any other — its link failure is reported exactly once, its close() is a close(); whatever the first session left behind must not matter"""
+    dev1 = device(rng)
+    first_end = rng.choice(["close", "close", "drop"])
+    ops = burst_ops(rng, 0, rng.randint(0, 5), [0, 0.05, 0.3])
+    ops += [["sleep", rng.choice([0.2, 1.0])]]
+    ops += ([["close"]] if first_end == "close" else [["drop"]]) + ([["close"]] if rng.random() < 0.3 else [])
+    ops += [["sleep", rng.choice([2.5, 5.0])], ["reconnect"]]
+    ops += burst_ops(rng, 1, rng.randint(1, 8), [0, 0.05, 0.3, 1.0])
+    dev2 = device(rng)
+    if ending == "drop":
+        dev2["drop_at"] = round(rng.uniform(0.05, 3.0), 3)
+        ops += [["sleep", 6.0], ["connected"], ["put", "MAIN", "LATE", "1"]]
+    else:
+        ops += [["sleep", rng.choice([0.0, 0.2, 1.5])]]
+    return {"kind": "conn", "device": dev1, "reconnect_device": dev2, "log_size": 0, "threads": [ops], "pre_register": [1], "final_wait": 0}
+
+
 def conn_reconnect(rng, T):
     """C02 over two connections of ONE YncaConnection object: the first link ends (planned close(), or it drops) while a line has arrived
     only in part; connect() is called again on the same object (as ynca/terminal.py does); what the registered callback is told about the
